@@ -31,7 +31,9 @@ let k_of_first g = match g with (k, _, _, _) :: _ -> k | [] -> 0
 (* rounds are processed in groups: a held round ("h<id>") and the round after it form one group whose two
    requests are both registered (CSend, CSend) before the datagrams of both arrive; every delivery goes to the
    round that registered the slot last. *)
-let run_reply fl toks =
+let run_reply fl toks impl =
+  let isegs = Array.of_list (split_on_str " ; " impl) in
+  let impl_got k = if k < Array.length isegs then (try kv (List.find (fun t -> String.length t > 4 && String.sub t 0 4 = "got=") (tokens isegs.(k))) "got" with Not_found -> "") else "" in
   match toks with
   | sec :: r :: rest ->
     let secret = bytes_of_hex (kv sec "secret") in
@@ -73,7 +75,15 @@ let run_reply fl toks =
       let delivered = Hashtbl.create 4 in
       List.iter (fun (_, _, _, dgs) ->
           List.iter (fun d ->
-              let (s2, o) = cstep md5f fl secret !st (CRecv d) in
+              (* admissible choice: a verifying datagram with an irregular Message-Authenticator may be ignored; the
+                 implementation's answer for the round that owns the slot decides *)
+              let rej = match cstep md5f fl secret !st (CRecv d) with
+                | (_, Some idd) when ma_irregular (truncate d) ->
+                  (match Hashtbl.find_opt owner (int_of_n idd) with
+                   | Some k when not (Hashtbl.mem delivered k) -> impl_got k <> show d
+                   | _ -> false)
+                | _ -> false in
+              let (s2, o) = cstep_g md5f fl rej secret !st (CRecv d) in
               st := s2;
               match o with
               | Some idd ->
@@ -155,7 +165,15 @@ let run_coa fl toks impl =
             let src = ip_of_string (get "src") in
             let bus = match get "bus" with "ok" -> 0 | "nf" -> 1 | "e0" -> 2 | _ -> 3 in
             let pre = nowt ^ " " ^ dgt ^ " " in
-            let (o, seen') = coa_step_st md5f fl cfg (z_of_int now) src (n_of_int bus) dg !seen in
+            (* admissible choice: an authenticated request with an irregular Message-Authenticator may be dropped as
+               invalid by the read loop; the implementation's answer (drop, InvalidAuth counted for that client) decides *)
+            let lenient = coa_step md5f fl cfg (z_of_int now) src (n_of_int bus) dg in
+            let rej = reached_worker lenient && ma_irregular (truncate dg) &&
+                      (match lenient, tokens seg with
+                       | (OReply (cl, _, _, _) | ODropInvalid (cl, _) | OSilent cl), _ :: _ :: "drop" :: st :: _ ->
+                         st = Printf.sprintf "st=c%d.invalid1" (int_of_nat cl)
+                       | _ -> false) in
+            let (o, seen') = coa_step_st md5f fl rej cfg (z_of_int now) src (n_of_int bus) dg !seen in
             seen := seen';
             (match o with
              | ODropUnknown -> pre ^ "drop st=unknown1 ev=noev"
@@ -282,7 +300,7 @@ let () =
       let il = if i < Array.length impl then impl.(i) else "" in
       let r = try
           (match tokens line with
-           | "reply" :: t -> run_reply fl t
+           | "reply" :: t -> run_reply fl t il
            | "coa" :: t -> run_coa fl t il
            | "auth" :: t -> run_auth fl t il
            | "lits" :: _ -> run_lits ()
